@@ -50,11 +50,14 @@ Baseline(ty) ==
 
 (* the values each field may deviate to, per type *)
 Domain(ty, f) ==
-  CASE f = "opSize"    -> {"small", "max", "over"}
+  \* "overByWhitespace": the request exceeds the maximum only through JSON whitespace around the (maximal) operation
+  CASE f = "opSize"    -> {"small", "max", "over", "overByWhitespace"}
     [] f = "deltaSize" -> IF HasDelta(ty) THEN {"small", "max", "over"} ELSE {"small"}
     [] f = "hashLen"   -> {"small", "max", "over"}
     \* "emptyList": the protocol version enables NO algorithm / curve / patch action at all (an empty allow-list allows nothing)
+    \* "respelled": the right multihash in a non-canonical base64url spelling (unused trailing bits set, line break inside)
     [] f = "hashAlg"   -> {<<"allowed", "">>, <<"emptyList", "">>} \cup {<<"notAllowed", h>> : h \in HashFields(ty)} \cup {<<"malformed", h>> : h \in HashFields(ty)}
+                          \cup {<<"respelled", h>> : h \in HashFields(ty)}
     [] f = "alg"       -> IF Signed(ty) THEN {"allowed", "notAllowed", "emptyList", "empty", "missing"} ELSE {"allowed"}
     [] f = "hdrExtra"  -> IF Signed(ty) THEN BOOLEAN ELSE {FALSE}
     [] f = "crv"       -> IF Signed(ty) THEN {"allowed", "notAllowed", "emptyList"} ELSE {"allowed"}
@@ -62,12 +65,13 @@ Domain(ty, f) ==
     \* a disabled action alone, or before / after / between patches with an enabled action
     [] f = "patch"     -> IF HasDelta(ty) THEN {"enabled", "disabled", "disabledFirst", "disabledLast", "disabledMiddle", "emptyList", "empty"} ELSE {"enabled"}
     [] f = "reveal"    -> IF Signed(ty) THEN {"match", "mismatch"} ELSE {"match"}
-    [] f = "next"      -> (CASE ty = "U" -> {"fresh", "selfCommit", "selfCommitOtherAlg"}
-                             [] ty = "R" -> {"fresh", "selfCommit", "selfCommitOtherAlg", "ucEqRc"}
-                             [] ty = "C" -> {"fresh", "ucEqRc"}
+    [] f = "next"      -> (CASE ty = "U" -> {"fresh", "selfCommit", "selfCommitOtherAlg", "selfCommitRespelled"}
+                             [] ty = "R" -> {"fresh", "selfCommit", "selfCommitOtherAlg", "ucEqRc", "selfCommitRespelled", "ucEqRcRespelled", "recoverUcIsRevealedKey"}
+                             [] ty = "C" -> {"fresh", "ucEqRc", "ucEqRcRespelled"}
                              [] ty = "D" -> {"fresh"})
     [] f = "missing"   -> {"none"} \cup MissingFields(ty)
-    [] f = "dsfx"      -> IF ty = "D" THEN {"match", "mismatch"} ELSE {"match"}
+    \* "tooLong": the request's DID suffix is longer than the maximum hash length (for a deactivate: in the signed data too)
+    [] f = "dsfx"      -> IF ty = "D" THEN {"match", "mismatch", "tooLong"} ELSE IF ty = "C" THEN {"match"} ELSE {"match", "tooLong"}
     [] f = "cdh"       -> IF ty = "C" THEN {"match", "mismatch"} ELSE {"match"}
 
 Fields == {"opSize", "deltaSize", "hashLen", "hashAlg", "alg", "hdrExtra", "crv", "nonce", "patch", "reveal", "next", "missing", "dsfx", "cdh"}
@@ -105,6 +109,8 @@ Compatible(r) ==
   \* a hash field computed with the other algorithm or malformed changes lengths: keep the length classes apart from it
   /\ r.hashAlg[1] # "allowed" => r.hashLen = "small"
   /\ r.next = "selfCommitOtherAlg" => (r.hashLen = "small" /\ r.hashAlg[1] = "allowed")
+  /\ r.next \in {"selfCommitRespelled", "ucEqRcRespelled"} => r.hashLen = "small"
+  /\ r.dsfx = "tooLong" => (r.hashLen = "small" /\ r.opSize = "small")
   \* the delta-size and operation-size classes are realised by parameters, they combine with everything
 
 Init == /\ \E ty \in Types : req = Baseline(ty)
